@@ -299,7 +299,7 @@ DAEMON_INV = ["D_AckRestoreEqualsSource", "D_FinalRestoreEqualsSource", "D_Every
 FAULT_KINDS = ["list", "open", "openmid", "write-before", "write-partial", "write-after", "delete-before", "delete-after"]
 
 
-def daemon_cases(seed, n, first_id=0, steps=(40, 90), faults="some", loss=False, restarts=True):
+def daemon_cases(seed, n, first_id=0, steps=(40, 90), faults="some", loss=False, restarts=True, loss_modes=("all",)):
     """faults: "none" | "some" (every third case) | "all": storage faults armed in bursts while the monitors run
     loss: local level-0 files vanish / are truncated under the running daemon (auto-recovery on in two cases of three)"""
     rnd = random.Random(seed * 7793 + 17)
@@ -314,7 +314,7 @@ def daemon_cases(seed, n, first_id=0, steps=(40, 90), faults="some", loss=False,
                 sched.append(["Fault", rnd.choice(FAULT_KINDS), rnd.randint(1, 3)])
                 continue
             if loss and x < 0.05:
-                sched += [["LocalLoss", rnd.choice(["newest", "newest", "all", "corrupt"])], ["Sleep", rnd.randint(20, 120)]]
+                sched += [["LocalLoss", rnd.choice(loss_modes)], ["Sleep", rnd.randint(20, 120)]]
                 continue
             if x < 0.45:
                 sched.append(["AppWrite", rnd.randint(1, 6)])
@@ -382,7 +382,7 @@ def daemon_cases(seed, n, first_id=0, steps=(40, 90), faults="some", loss=False,
 def daemon_run(rep, binary, wd, cases, prop, name="daemon"):
     """Run daemon-mode cases on the real code and judge them with DaemonObs.tla. Returns the number of violations."""
     by_id = {c["id"]: c for c in cases}
-    out, info = run_cases(binary, wd, name, [{k: c[k] for k in ("id", "cfg", "sched")} for c in cases], j=4)
+    out, info = run_cases(binary, wd, name, [{k: c[k] for k in ("id", "cfg", "sched")} for c in cases], j=8)
     events, verdicts, hazards = judge(rep, wd, out, DAEMON_INV, prop + "-daemon", module="DaemonObs")
     st = {"runs": len(events), "runs_with_faults": sum(1 for c in cases if c["cfg"].get("faults")), "acks": 0, "acks_restored": 0, "txids_audited": 0, "txids_below_floor": 0, "compactions": 0,
           "snapshots": 0, "l0_deleted_runs": 0, "validator_disagrees": 0, "clean_stops": 0, "steps_compared_with_control": 0}
@@ -418,8 +418,11 @@ def daemon_run(rep, binary, wd, cases, prop, name="daemon"):
             rep.cov["known_finding_traces"] += 1
             continue
         slim = [{k: e[k] for k in ("i", "op", "arg", "n", "res", "ack", "rpos", "app")} for e in events.get(t, [])]
+        audits = [[[a["lvl"], a["txid"], a["ok"], a["app"], a.get("integ", "")[:24]] for a in e["audit"]] for e in events.get(t, []) if e["op"] == "AuditNow"]
         rep.violation("%s violated by the real daemon (Store with all monitors running, trace %d, steps %s)" % (
-            names, t, sorted(set(i for _, i in items))[:5]), {"cfg": c["cfg"], "sched": c["sched"], "violated": items, "steps": slim[-60:]})
+            names, t, sorted(set(i for _, i in items))[:5]), {"cfg": c["cfg"], "sched": c["sched"], "violated": items, "steps": slim[-60:],
+                                                             "ledger": [e["app"] for e in events.get(t, [])], "audits": audits[-1:],
+                                                             "listing": (events.get(t) or [{}])[-1].get("remote")})
         nv += 1
     return nv, events
 
